@@ -52,3 +52,140 @@ def obligations():
            roots=[HK + '::' + f for f in ('xfront_halfface', 'xback_halfface', 'yfront_halfface', 'yback_halfface', 'zfront_halfface', 'zback_halfface', 'get_oriented_halfface', 'orientation', 'opposite_halfface_handle_in_cell')],
            harness=ACCESS, note='layout accessors on one cell with six arbitrary halfface handles drawn from [0,64) (the accessors only compare handles for equality, so every equality pattern is covered): positions, orientation() as inverse, opposite-in-cell as position xor 1'),
     ]
+
+# ---------------------------------------------------------------------------------------------------------------
+# C16 part 2, tier B (concrete construction executed symbolically): two hexahedra built through the REAL
+# add_cell(8 vertices) on an empty hexahedral kernel; layout convention, hex_vertices pattern, sheet circulators
+# (direction / reference cell / reference halfface symbolic); and add_cell(6 halffaces, topology check) for EVERY
+# permutation of a valid cell's halfface list.
+from obligations.query import DEFS as QDEFS
+HEXDEFS = dict(QDEFS); HEXDEFS.update(LV=12, PV=12, LE=20, PE=20, LF=11, PF=11, LC=2, PC=2, LFV=4, PFV=4, LCV=6, PCV=6, LOUT=5, POUT=5, LINC=3, PINC=3, VSTD_CAP_DEFAULT=44)
+HM = '(struct HexahedralMeshTopologyKernel *)'
+HEXHELP = '''
+typedef struct HexahedralMeshTopologyKernel HMESH;
+static _Bool hx_share_vertex(const TK *m, int hfa, int hfb) { _Bool r = 0; for (unsigned long i = 0; i < 4; i++) for (unsigned long j = 0; j < 4; j++) if (i < FVAL(m, hfa >> 1) && j < FVAL(m, hfb >> 1) && spec_hf_vertex(m, hfa, i) == spec_hf_vertex(m, hfb, j)) r = 1; return r; }
+/* the halfface of cell c, other than hf, that contains the opposite of halfedge he; -1 if none */
+static int hx_adj(const TK *m, int c, int hf, int he) { int r = -1; for (unsigned long k = 0; k < 6; k++) if (k < CVAL(m, c) && CHF(m, c, k) != hf && spec_he_in_hf(m, CHF(m, c, k), he ^ 1)) r = CHF(m, c, k); return r; }
+/* the x-front, x-back, y-front, y-back, z-front, z-back convention of the property statement */
+static _Bool hx_convention(const TK *m, int c) {
+  if (CVAL(m, c) != 6) return 0;
+  for (int k = 0; k < 6; k++) if (FVAL(m, CHF(m, c, k) >> 1) != 4) return 0;
+  for (int k = 0; k < 3; k++) if (hx_share_vertex(m, CHF(m, c, 2 * k), CHF(m, c, 2 * k + 1))) return 0;
+  int T[4] = {CHF(m, c, 2), CHF(m, c, 4), CHF(m, c, 3), CHF(m, c, 5)}; int seq[4];
+  for (int i = 0; i < 4; i++) seq[i] = hx_adj(m, c, CHF(m, c, 0), spec_hf_he(m, CHF(m, c, 0), i));
+  _Bool any = 0;
+  for (int r = 0; r < 4; r++) { _Bool ok = 1; for (int j = 0; j < 4; j++) if (seq[(r + j) % 4] != T[j]) ok = 0; if (ok) any = 1; }
+  return any;
+}
+static struct vec_VH hx_list8(const int *v) { struct vec_VH l; vec_VH_init(&l); for (int i = 0; i < 8; i++) { struct VH h; h.idx_ = v[i]; vec_VH_push_back(&l, h); } return l; }
+static void hx_two_cubes(HMESH *m) {
+  tk_init(m);
+  for (int i = 0; i < 12; i++) TopologyKernel__add_vertex((TK *)m);
+  static const int A[8] = {0, 1, 2, 3, 4, 5, 6, 7}, B[8] = {7, 6, 5, 4, 8, 11, 10, 9};
+  struct vec_VH la = hx_list8(A), lb = hx_list8(B);
+  struct CH c0 = HexahedralMeshTopologyKernel__add_cell__std_vector_VH__r_bool(m, &la, 1);
+  struct CH c1 = HexahedralMeshTopologyKernel__add_cell__std_vector_VH__r_bool(m, &lb, 1);
+  __CPROVER_assert(c0.idx_ == 0 && c1.idx_ == 1, "C16.two_cubes.both_cells_created_from_eight_vertices");
+}
+'''
+TWO_CUBES = '''
+void harness(void) {
+  HMESH hm; hx_two_cubes(&hm); TK *m = (TK *)&hm;
+  __CPROVER_assert(wf(m) && m->n_vertices_ == 12 && m->edges_.size == 20 && m->faces_.size == 11 && m->cells_.size == 2, "C16.two_cubes.well_formed_with_12_vertices_20_edges_11_faces_2_cells (the shared face is found, not duplicated)");
+  __CPROVER_assert(hx_convention(m, 0) && hx_convention(m, 1), "C16.two_cubes.cells_created_from_eight_vertices_follow_the_xf_xb_yf_yb_zf_zb_convention");
+  int c = nondet_int(); __CPROVER_assume(c == 0 || c == 1);
+  struct CH hc; hc.idx_ = c;
+  /* hex_vertices */
+  int seq[20]; int cnt = 0; int laps = nondet_int(); __CPROVER_assume(laps == 1 || laps == 2);
+  { @TYPE(hv_iter)@ it = HexahedralMeshTopologyKernel__hv_iter(&hm, hc, laps);
+    for (int s = 0; s < 20; s++) if (it.valid_) { seq[cnt] = it.cur_handle_.idx_; cnt++; @INC(hv_iter)@(&it); } }
+  __CPROVER_assert(cnt == 8 * laps, "C16.hex_vertices.eight_vertices_per_lap");
+  _Bool distinct = 1; for (int i = 0; i < 8; i++) for (int j = 0; j < 8; j++) if (i < j && seq[i] == seq[j]) distinct = 0;
+  __CPROVER_assert(distinct, "C16.hex_vertices.eight_distinct_vertices");
+  int h0 = CHF(m, c, 0), h1 = CHF(m, c, 1);
+  __CPROVER_assert(seq[0] == HEFROM(m, spec_hf_he(m, h0, 0)) && seq[1] == spec_hf_vertex(m, h0, 3) && seq[2] == spec_hf_vertex(m, h0, 2) && seq[3] == spec_hf_vertex(m, h0, 1), "C16.hex_vertices.first_four_are_the_first_halfface_against_its_cyclic_order_from_the_source_of_its_first_halfedge");
+  _Bool back = 1; for (int i = 4; i < 8; i++) if (!spec_vertex_in_hf(m, h1, seq[i])) back = 0;
+  __CPROVER_assert(back, "C16.hex_vertices.last_four_are_the_opposite_halffaces_vertices");
+  __CPROVER_assert(spec_live_he(m, seq[0], seq[4]) && spec_live_he(m, seq[1], seq[7]) && spec_live_he(m, seq[2], seq[6]) && spec_live_he(m, seq[3], seq[5]), "C16.hex_vertices.pattern_positions_0_4__1_7__2_6__3_5_are_joined_by_edges");
+  __CPROVER_assert(cnt < 16 || (seq[8] == seq[0] && seq[15] == seq[7]), "C16.hex_vertices.second_lap_repeats");
+  /* sheets */
+  unsigned char dir = nondet_uchar(); __CPROVER_assume(dir < 6);
+  int expect[4]; int ne = 0;
+  for (int k = 0; k < 6; k++) if (k / 2 != dir / 2) { int d = ICELL(m, CHF(m, c, k) ^ 1); if (d >= 0) { _Bool dup = 0; for (int i = 0; i < 4; i++) if (i < ne && expect[i] == d) dup = 1; if (!dup) { expect[ne] = d; ne++; } } }
+  int got[8]; int ng = 0;
+  { @TYPE(csc_iter)@ it = HexahedralMeshTopologyKernel__csc_iter(&hm, hc, dir, 1);
+    __CPROVER_assert(it.valid_ == (ne > 0), "C16.cell_sheet_cells.valid_exactly_when_there_is_a_neighbour_across_an_orthogonal_halfface");
+    for (int s = 0; s < 8; s++) if (it.valid_) { got[ng] = it.cur_handle_.idx_; ng++; @INC(csc_iter)@(&it); } }
+  _Bool sameset = ng == ne; for (int i = 0; i < 4; i++) if (i < ne) { _Bool f = 0; for (int j = 0; j < 8; j++) if (j < ng && got[j] == expect[i]) f = 1; if (!f) sameset = 0; }
+  __CPROVER_assert(sameset, "C16.cell_sheet_cells.exactly_the_neighbours_across_the_four_halffaces_orthogonal_to_the_direction");
+  int k0 = nondet_int(); __CPROVER_assume(0 <= k0 && k0 < 6);
+  int ref = CHF(m, c, k0); struct HFH href; href.idx_ = ref;
+  int exh[8]; int nx = 0;
+  for (int d = 0; d < 2; d++) { _Bool isn = 0; for (int k = 0; k < 6; k++) if (k / 2 != k0 / 2 && ICELL(m, CHF(m, c, k) ^ 1) == d) isn = 1;
+    if (isn) for (int k = 0; k < 6; k++) { int g = CHF(m, d, k); _Bool common = 0; for (int i = 0; i < 4; i++) if (spec_he_in_hf(m, g, spec_hf_he(m, ref ^ 1, i))) common = 1; if (common) { exh[nx] = g; nx++; } } }
+  int goth[8]; int nh = 0;
+  { @TYPE(hfshf_iter)@ it = HexahedralMeshTopologyKernel__hfshf_iter(&hm, href, 1);
+    for (int s = 0; s < 8; s++) if (it.valid_) { goth[nh] = it.cur_handle_.idx_; nh++; @INC(hfshf_iter)@(&it); } }
+  _Bool same2 = nh == nx; for (int i = 0; i < 8; i++) if (i < nx && i < nh && goth[i] != exh[i]) same2 = 0;
+  __CPROVER_assert(same2, "C16.halfface_sheet_halffaces.the_matching_halffaces_of_the_sheet_neighbours");
+  /* orientation helpers agree with the layout on real cells */
+  __CPROVER_assert(HexahedralMeshTopologyKernel__orientation(&hm, href, hc) == k0 && HexahedralMeshTopologyKernel__opposite_halfface_handle_in_cell(&hm, href, hc).idx_ == CHF(m, c, k0 ^ 1), "C16.orientation.agrees_with_the_layout_on_real_cells");
+}
+'''
+PERMS = '''
+void harness(void) {
+  HMESH base; tk_init(&base);
+  for (int i = 0; i < 8; i++) TopologyKernel__add_vertex((TK *)&base);
+  static const int F[6][4] = {{3,2,1,0},{7,6,5,4},{1,2,6,7},{4,5,3,0},{1,7,4,0},{2,3,5,6}};
+  int H[6];
+  for (int f = 0; f < 6; f++) H[f] = 2 * shape_face((TK *)&base, 4, F[f][0], F[f][1], F[f][2], F[f][3]).idx_;
+  int first = nondet_int(); __CPROVER_assume(0 <= first && first < 6);      /* which halfface comes first: symbolic; the order of the other five: enumerated */
+  int checked = 0;
+  static const int P5[120][5] = {%(P5)s};
+  for (int q = %(QLO)d; q < %(QHI)d; q++) {
+    HMESH hm = HexahedralMeshTopologyKernel__copy(&base); TK *m = (TK *)&hm;
+    TK o = TopologyKernel__copy(m);
+    int L[6]; L[0] = H[first]; for (int i = 0; i < 5; i++) { int j = P5[q][i]; L[i + 1] = H[j < first ? j : j + 1]; }
+    struct vec_HFH l; vec_HFH_init(&l); for (int i = 0; i < 6; i++) { struct HFH h; h.idx_ = L[i]; vec_HFH_push_back(&l, h); }
+    _Bool conv_in = HexahedralMeshTopologyKernel__check_halfface_ordering(&hm, &l);
+    struct CH r = HexahedralMeshTopologyKernel__add_cell__std_vector_HFH_bool(&hm, l, 1);
+    if (r.idx_ >= 0) {
+      __CPROVER_assert(r.idx_ == 0 && m->cells_.size == 1 && wf(m), "C16.add_cell_permuted.accepted_cell_is_appended_and_the_mesh_stays_well_formed");
+      __CPROVER_assert(hx_convention(m, 0), "C16.add_cell_permuted.accepted_cell_is_stored_in_the_convention_order");
+      _Bool perm = 1; for (int i = 0; i < 6; i++) { int cntl = 0; for (int k = 0; k < 6; k++) if (CHF(m, 0, k) == L[i]) cntl++; if (cntl != 1) perm = 0; }
+      __CPROVER_assert(perm, "C16.add_cell_permuted.stored_list_is_a_reordering_of_the_given_halffaces");
+      _Bool kept = 1; for (int i = 0; i < 6; i++) if (CHF(m, 0, i) != L[i]) kept = 0;
+      __CPROVER_assert(!conv_in || kept, "C16.add_cell_permuted.a_list_already_in_convention_order_is_stored_unchanged");
+      __CPROVER_assert(CHF(m, 0, 0) == L[0], "C16.add_cell_permuted.the_first_halfface_stays_first");
+    } else {
+      __CPROVER_assert(same_state(&o, m), "C16.add_cell_permuted.rejection_leaves_the_mesh_unchanged");
+    }
+    /* check_halfface_ordering agrees with the convention predicate evaluated on the list itself */
+    { HMESH t2 = HexahedralMeshTopologyKernel__copy(&base); struct vec_HFH l2; vec_HFH_init(&l2); for (int i = 0; i < 6; i++) { struct HFH h; h.idx_ = L[i]; vec_HFH_push_back(&l2, h); }
+      struct CH r2 = TopologyKernel__add_cell((TK *)&t2, l2, 0);
+      __CPROVER_assert(conv_in == hx_convention((TK *)&t2, r2.idx_), "C16.check_halfface_ordering.true_exactly_for_lists_in_convention_order"); }
+    __CPROVER_assert(r.idx_ >= 0, "C16.add_cell_permuted.every_reordering_of_a_valid_hexahedron_is_accepted");
+    checked++;
+  }
+  __CPROVER_assert(checked == %(QHI)d - %(QLO)d, "C16.add_cell_permuted.all_orders_enumerated");
+}
+'''
+_base_hex = obligations
+def obligations():
+    import itertools
+    obs = _base_hex()
+    from obligations.query import ROOTS_BUILD, TK
+    roots = [HK + '::' + f for f in ('hv_iter', 'csc_iter', 'hfshf_iter', 'orientation', 'opposite_halfface_handle_in_cell', 'check_halfface_ordering')] + \
+            [(HK + '::add_cell', 'const std::vector<VertexHandle> &'), (HK + '::add_cell', 'std::vector<HalfFaceHandle>, bool')] + ROOTS_BUILD
+    inc = ['wf.h', 'view.h', 'add_spec.h', 'query_spec.h', 'circ_spec.h', 'shapes.h']
+    obs.append(Ob(id='C16.two_cubes', props=['C16', 'C05'], quick_for=['C16'], tu='tethex', cfg='hex', tier='B', roots=roots, harness=TWO_CUBES, includes=inc, copies=[TK, HK], defines=dict(HEXDEFS),
+                  inits={'tk_init': HK}, preamble_after=HEXHELP, circ_class='HexahedralMeshTopologyKernel', unwind=60, unwind_start=14, timeout=3000,
+                  bounds=dict(scenario='two hexahedra sharing a face, built by add_cell(8 vertices)', symbolic='reference cell, laps, sheet direction, reference halfface'),
+                  note='two hexahedra built through the real add_cell(8 vertices): convention, hex_vertices pattern, sheet circulators against hand-written specifications'))
+    P5 = ', '.join('{%d,%d,%d,%d,%d}' % p for p in itertools.permutations(range(5)))
+    for name, lo, hi, qf in (('a', 0, 30, ['C16']), ('b', 30, 60, []), ('c', 60, 90, []), ('d', 90, 120, [])):
+        obs.append(Ob(id='C16.add_cell_permuted.' + name, props=['C16'], quick_for=qf, tu='tethex', cfg='hex', tier='B', roots=roots, harness=PERMS % dict(P5=P5, QLO=lo, QHI=hi), includes=inc, copies=[TK, HK],
+                      defines=dict(HEXDEFS, LV=8, PV=8, LE=12, PE=12, LF=6, PF=6, LC=1, PC=1, LOUT=3, POUT=3, LINC=2, PINC=2, VSTD_CAP_DEFAULT=26), inits={'tk_init': HK}, preamble_after=HEXHELP, unwind=40, unwind_start=14, timeout=3000,
+                      bounds=dict(scenario='the six inner halffaces of one cube', orders='first halfface symbolic (6), the other five in the enumerated orders %d..%d of 120' % (lo, hi - 1)),
+                      note='add_cell(6 halffaces, topology check) and check_halfface_ordering for the orders %d..%d (of 120, times 6 symbolic choices of the first halfface) of a valid hexahedron\'s halffaces' % (lo, hi - 1)))
+    return obs
